@@ -43,3 +43,74 @@ Fixpoint idx_from {A} (i : nat) (f : A -> bool) (cs : list A) : list nat :=
   match cs with [] => [] | c :: r => if f c then i :: idx_from (S i) f r else idx_from (S i) f r end.
 Definition mismatch_idx := idx_from 0 mismatch.
 Definition ref_violation_idx := idx_from 0 ref_violation.
+
+(* ---- histories on one indexer instance (cache with a timeout; only a reset forces a
+   refresh) ---------------------------------------------------------------------------- *)
+Record cache := mkcache { c_valid : bool; c_ir : Z; c_size : Z; c_alpha : Z }.
+Definition cache0 : cache := mkcache false 0 0 0.
+
+Record mstep := mkstep { s_reset : bool; s_ir : list nat; s_alpha : list nat; s_fail_ir : bool; s_fail_alpha : bool }.
+
+(* innerRingIndexer.update: within the timeout the cached indexes are returned; otherwise the
+   inner ring list is fetched and stored, then the committee; lastAccess is set only after both
+   succeeded, so a failed refresh is retried by the next lookup *)
+Definition cupdate (own : nat) (c : cache) (s : mstep) : cache * option (Z * Z * Z) :=
+  let c := if s_reset s then mkcache false (c_ir c) (c_size c) (c_alpha c) else c in
+  if c_valid c then (c, Some (c_ir c, c_size c, c_alpha c))
+  else if s_fail_ir s then (c, None)
+  else let c1 := mkcache false (key_position own (s_ir s)) (Z.of_nat (length (s_ir s))) (c_alpha c) in
+       if s_fail_alpha s then (c1, None)
+       else let c2 := mkcache true (c_ir c1) (c_size c1) (key_position own (s_alpha s)) in
+            (c2, Some (c_ir c2, c_size c2, c_alpha c2)).
+
+(* one step = the five getters called in a row (IsAlphabet, IsActive, AlphabetIndex,
+   InnerRingIndex, InnerRingSize), each doing its own update *)
+Definition obs := (bool * bool * Z * Z * Z)%type.
+Definition cstep (own : nat) (c : cache) (s : mstep) : cache * obs :=
+  let get (c : cache) (f : Z * Z * Z -> Z) (d : Z) := let '(c', r) := cupdate own c (mkstep false (s_ir s) (s_alpha s) (s_fail_ir s) (s_fail_alpha s)) in
+                                                      (c', match r with Some t => f t | None => d end) in
+  let '(c0, r0) := cupdate own c s in
+  let a0 := match r0 with Some (_, _, a) => a | None => -1 end in
+  let '(c1, i1) := get c0 (fun t => fst (fst t)) (-1) in
+  let '(c2, a2) := get c1 (fun t => snd t) (-1) in
+  let '(c3, i3) := get c2 (fun t => fst (fst t)) (-1) in
+  let '(c4, z4) := get c3 (fun t => snd (fst t)) 0 in
+  (c4, (0 <=? a0, 0 <=? i1, a2, i3, z4)).
+
+Fixpoint crun (own : nat) (c : cache) (ss : list mstep) : list obs :=
+  match ss with
+  | [] => []
+  | s :: r => let '(c', o) := cstep own c s in o :: crun own c' r
+  end.
+
+Definition obs_eqb (a b : obs) : bool :=
+  let '(a1, a2, a3, a4, a5) := a in let '(b1, b2, b3, b4, b5) := b in
+  Bool.eqb a1 b1 && Bool.eqb a2 b2 && Z.eqb a3 b3 && Z.eqb a4 b4 && Z.eqb a5 b5.
+Fixpoint obs_list_eqb (a b : list obs) : bool :=
+  match a, b with
+  | [], [] => true
+  | x :: r, y :: s => obs_eqb x y && obs_list_eqb r s
+  | _, _ => false
+  end.
+
+(* reference for histories, from the property: the node may be reported as alphabet member
+   only if the alphabet list of the last COMPLETE refresh contained its key *)
+Fixpoint ref_hist (own : nat) (valid : bool) (good : option (list nat)) (ss : list (mstep * obs)) : bool :=
+  match ss with
+  | [] => true
+  | (s, (ia, _, ai, _, _)) :: r =>
+      let valid := if s_reset s then false else valid in
+      let refreshed := negb valid && negb (s_fail_ir s) && negb (s_fail_alpha s) in
+      let good' := if refreshed then Some (s_alpha s) else good in
+      let valid' := valid || refreshed in
+      let member := match good' with Some l => (valid') && existsb (Nat.eqb own) l | None => false end in
+      (member || negb (ia || (0 <=? ai))) && ref_hist own valid' good' r
+  end.
+
+Definition hcase := (nat * list (mstep * obs))%type.
+Definition hist_mismatch (h : hcase) : bool :=
+  let '(own, ss) := h in negb (obs_list_eqb (crun own cache0 (map fst ss)) (map snd ss)).
+Definition hist_ref_violation (h : hcase) : bool :=
+  let '(own, ss) := h in negb (ref_hist own false None ss).
+Definition hist_mismatch_idx := idx_from 0 hist_mismatch.
+Definition hist_ref_violation_idx := idx_from 0 hist_ref_violation.
